@@ -287,16 +287,9 @@ func (in *Interp) newCellOf(t types.Type) *cell {
 	c := &cell{}
 	switch u := t.Underlying().(type) {
 	case *types.Struct:
+		c.fields = map[int]*cell{}
 		for i := 0; i < u.NumFields(); i++ {
-			c.fields = nil
-			fc := in.newCellOf(u.Field(i).Type())
-			if c.fields == nil {
-				c.fields = map[int]*cell{}
-			}
-			c.fields[i] = fc
-		}
-		if c.fields == nil {
-			c.fields = map[int]*cell{}
+			c.fields[i] = in.newCellOf(u.Field(i).Type())
 		}
 	case *types.Array:
 		if u.Len() <= 4096 {
